@@ -234,6 +234,8 @@ def lookup1_spec(rep, rule, func, site):
                     {nt(e.left), nt(e.comparators[0])} == {'_not_in_mapping', getsrc}:
                 miss = t
         ret = nt(ps.ret)
+        if miss is None and fact_about(ps, getsrc) is True:
+            miss = False        # the probe returned None: not the sentinel
         if miss is None:
             problems.append('no hit/miss test')
         elif miss:
